@@ -1091,7 +1091,9 @@ class SourceFinder(object):
             idx, idy = np.where(abs(idata) - outerclip * rms > 0)
             idx += xmin
             idy += ymin
-            self.global_data.img[[idx, idy]] = np.nan
+            # blank the pixels of this island (index by the pair of index
+            # arrays, not by a list of them, which numpy reads as row numbers)
+            self.global_data.img[idx, idy] = np.nan
 
         # calculate the integrated island flux if required
         if island_data.doislandflux:
